@@ -122,7 +122,16 @@ def strategy(tier):
         'part': st.just('blocked_cb'),
         'same_client': st.booleans(),
         'args': st.lists(st.sampled_from(['x', 1, None, True]), max_size=2)})
-    return st.one_of(*([_main_strategy(big, op)] * 10 + [odd, odd, blocked]))
+    # the client's acknowledgement arrives while its disconnect is being
+    # reported to the application (the handler is still running): the
+    # client has disconnected, its callbacks are not invoked any more
+    late = st.fixed_dictionaries({
+        'part': st.just('ack_in_disc'), 'aio': st.booleans(),
+        'how': st.sampled_from(['cdisc', 'sdisc']),
+        'binary': st.booleans(),
+        'args': st.lists(st.sampled_from(['x', 1, None, True]), max_size=2)})
+    return st.one_of(*([_main_strategy(big, op)] * 10 +
+                       [odd, odd, blocked, late, late]))
 
 
 def _main_strategy(big, op):
@@ -255,7 +264,83 @@ def _blocked_cb(case):
         w.close()
 
 
+def _ack_in_disc(case):
+    aio = case['aio']
+    w = World(aio=aio, namespaces=NSS)
+    try:
+        sio = w.sio
+        labels = {'part': 'ack_in_disc', 'aio': aio, 'nontrivial': True}
+        t = w.open()
+        ci, _ = w.connect(t, '/')
+        c = w.clients[ci]
+        fired = []
+        state = {'frames': None, 'gate': None, 'ran': 0}
+        if aio:
+            async def on_disc(sid, reason):
+                state['ran'] += 1
+                state['gate'] = w.h.loop.create_future()
+                await state['gate']
+        else:
+            def on_disc(sid, reason):
+                state['ran'] += 1
+                for f in state['frames']:       # "another thread"
+                    w.h.feed(w.t[t], f, settle=False)
+        sio.on('disconnect', on_disc, namespace='/')
+        w.recv_all()
+        w.do(sio.emit('ev', 1, to=c['sid'], namespace='/',
+                      callback=lambda *a: fired.append(a)))
+        pid = w.recv(t)[0]['id']
+        args = list(case['args']) + ([b'bin'] if case['binary'] else [])
+        state['frames'] = wire.frames(wire.ACK, '/', pid, args)
+        if aio:
+            P = w.h.eio_packet
+            sock = w.h.eio.sockets[w.t[t]]
+            if case['how'] == 'cdisc':
+                task = w.h.loop.spawn(sock.receive(P.Packet(P.MESSAGE, '1')))
+            else:
+                task = w.h.loop.spawn(sio.disconnect(c['sid'],
+                                                     namespace='/'))
+            w.h.loop.run_until_idle()
+            if state['gate'] is None:
+                raise Violation('disconnect-handler-missing', '')
+            for f in state['frames']:
+                w.h.loop.spawn(sock.receive(P.Packet(P.MESSAGE, f)))
+            w.h.loop.run_until_idle()
+            early = list(fired)
+            state['gate'].set_result(None)
+            w.h.loop.run_until_idle()
+            if not task.done() or task.exception() is not None:
+                raise Violation('disconnect-failed', repr(task))
+        else:
+            if case['how'] == 'cdisc':
+                w.send(t, wire.DISCONNECT, '/')
+            else:
+                w.do(sio.disconnect(c['sid'], namespace='/'))
+            early = list(fired)
+        w.h.settle()
+        w.h.swallowed[:] = []
+        if state['ran'] != 1:
+            raise Violation('disconnect-handler-count', str(state['ran']))
+        if fired:
+            raise Violation('callback-after-disconnect',
+                            'the client had disconnected (%s, its disconnect '
+                            'handler was running) when its ACK arrived: the '
+                            'callback was invoked with %r'
+                            % (case['how'], fired))
+        # ... and not afterwards either
+        for f in state['frames']:
+            w.send_raw(t, f)
+        w.h.settle()
+        if fired:
+            raise Violation('callback-after-disconnect', repr(fired))
+        return labels
+    finally:
+        w.close()
+
+
 def check_case(case):
+    if case.get('part') == 'ack_in_disc':
+        return _ack_in_disc(case)
     if case.get('part') == 'blocked_cb':
         return _blocked_cb(case)
     if case.get('part') == 'odd_id':
